@@ -45,6 +45,12 @@ def warmup():
     u.apply_gbs(alph.texture("random", 3), alph.volumes("uniform", 3), 0.3, alph.texture("random2", 3), 3)
 
 
+GETREG = {
+    "disl_then_null": lambda t, x: 4 if t < 0.3 else 7,
+    "disl_then_diff": lambda t, x: 4 if t < 0.3 else 1,
+}
+
+
 def kvol(name, n, chi):
     thr = chi / n
     if thr == 0.0 and name in ("ulp_below", "mixed_ulps"):
@@ -89,6 +95,17 @@ def gen_cases(tier, seed):
                         if nd <= (1 if tier == "quick" else 2):
                             roots.append(dict(part="hist", fab=fab, reg=reg, tex="random", vol=vol, ng=ng, prm=prm, depth=2 if tier == "quick" else 3))
     keys += roots
+    # the sliding rule applies after every update, whatever the regime (the two
+    # viscosity-bound regimes and diffusion creep leave volumes alone, but grains that are
+    # already below the threshold must still be floored and held): seed C09c
+    for fab in alph.FABRICS:
+        for reg in ("minvisc", "diff", "maxvisc"):
+            for vol in ("geometric", "dominant"):
+                keys.append(dict(part="hist", fab=fab, reg=reg, tex="random", vol=vol, ng=5, prm="default", depth=2 if tier == "quick" else 3))
+    # and when the regime is switched by a callable in the middle of a history
+    for fab in alph.FABRICS:
+        for gr in ("disl_then_null", "disl_then_diff"):
+            keys.append(dict(part="hist", fab=fab, reg="disl", tex="random", vol="geometric", ng=5, prm="M200", depth=2 if tier == "quick" else 3, getreg=gr))
     for fab in alph.FABRICS:
         for fl in ("ss_xz", "time"):
             keys.append(dict(part="chain", fab=fab, reg="disl", tex="random", vol="geometric", ng=8, prm="M200", flow=fl))
@@ -201,7 +218,8 @@ def run_hist(key):
         start = child.m.orientations[-1].copy()
         start_hash = digest(np.asarray(child.m.orientations[-1]))
         try:
-            F, mon = H.update_mon(child.m, prm, child.F, fl, st.t, t1)
+            kw = {"get_regime": GETREG[key["getreg"]]} if key.get("getreg") else {}
+            F, mon = H.update_mon(child.m, prm, child.F, fl, st.t, t1, **kw)
         except Exception as e:
             res["notes"]["rejected_updates"] = res["notes"].get("rejected_updates", 0) + 1
             if isinstance(e, H.UpdateTimeout):
